@@ -73,6 +73,8 @@ theorem keeps_cSetSt (i j : Nat) (frm : HSt) (to : Conn → HSt) (hne : frm ≠ 
   · simp only
     rw [List.getElem?_set_ne hij]; exact hq
 
+theorem keeps_cStartP (i j : Nat) : Keeps i (cStartP j) :=
+  keeps_cSetSt i j .handed (fun _ => .running) (by simp)
 theorem keeps_cFin (i j : Nat) : Keeps i (cFin j) :=
   keeps_cSetSt i j .running (fun _ => .finished) (by simp)
 theorem keeps_cWrite (i j : Nat) : Keeps i (cWrite j) :=
@@ -224,12 +226,16 @@ theorem dropped_step {cfg : Cfg} {n qc : Nat} (hpool : cfg.pool = some (n, qc)) 
     split at h <;> try contradiction
     rename_i hg
     rcases hd.stopped with hs | hs <;> rcases hg with hl | hl <;> rw [hs] at hl <;> contradiction
-  | start c' j =>
+  | pGive =>
     simp only [step, hpool] at h
     split at h <;> try contradiction
-    rename_i hg
-    rw [hd.noHeld] at hg
-    exact absurd hg.1 (by simp)
+    rename_i hh
+    rw [hd.noHeld] at hh
+    contradiction
+  | start c' j =>
+    have hp : poolOn cfg = true := by simp [poolOn, hpool]
+    simp only [step, hp, if_true] at h
+    exact dropped_updConn (keeps_cStartP i j) hd h
   | fin c' j => exact dropped_updConn (keeps_cFin i j) hd h
   | write c' j => exact dropped_updConn (keeps_cWrite i j) hd h
   | dec c' j => exact dropped_updConn (keeps_cDec i j) hd h
